@@ -259,6 +259,68 @@ MUTANTS: List[M] = [
       [("WELLKNOWN_DAV_PATHS = {\n    caldav.WELLKNOWN_CALDAV_PATH,\n    carddav.WELLKNOWN_CARDDAV_PATH,\n}", "WELLKNOWN_DAV_PATHS = {\n    caldav.WELLKNOWN_CALDAV_PATH,\n}")], "no carddav well-known redirect"),
 ]
 
+MUTANTS += [
+    M("first-instance-only", {"C12": ["A6"]}, CR,
+      [("    for prop_el in prop:\n        matched = True\n        for subel in el:\n            if subel.tag == \"{urn:ietf:params:xml:ns:carddav}text-match\":\n                if not apply_text_match(subel, str(prop_el)):\n                    matched = False\n                    break\n            elif subel.tag == \"{urn:ietf:params:xml:ns:carddav}param-filter\":\n                if not apply_param_filter(subel, prop_el):\n                    matched = False\n                    break\n        if matched:\n            return True\n    return False",
+        "    for prop_el in prop:\n        for subel in el:\n            if subel.tag == \"{urn:ietf:params:xml:ns:carddav}text-match\":\n                if not apply_text_match(subel, str(prop_el)):\n                    return False\n            elif subel.tag == \"{urn:ietf:params:xml:ns:carddav}param-filter\":\n                if not apply_param_filter(subel, prop_el):\n                    return False\n        return True\n    return False")],
+      "prop-filter only looks at the first instance of a multi-valued property"),
+    M("casemap-on-str", {"C12": ["A7"]}, CO,
+      [("        a.encode(\"utf-8\", \"surrogateescape\").upper(),\n        b.encode(\"utf-8\", \"surrogateescape\").upper(),\n        k,\n    ),\n    \"i;octet\"",
+        "        a.upper(),\n        b.upper(),\n        k,\n    ),\n    \"i;octet\"")], "ascii-casemap folds non-ASCII letters too"),
+    M("dupcheck-skipped-on-etag-match", {"C06": ["U1"]}, G,
+      [("    def _check_duplicate(self, uid, name, replace_etag):\n        if uid is not None and self._check_for_duplicate_uids:",
+        "    def _check_duplicate(self, uid, name, replace_etag):\n        if replace_etag is not None and self._has_etag(name, replace_etag):\n            return replace_etag\n        if uid is not None and self._check_for_duplicate_uids:"),
+       ("    def _scan_uids(self):\n        removed = set(self._fname_to_uid.keys())\n        for name, mode, sha in self._iterblobs():",
+        "    def _has_etag(self, name, etag):\n        try:\n            return self._get_etag(name) == etag\n        except KeyError:\n            return False\n\n    def _scan_uids(self):\n        removed = set(self._fname_to_uid.keys())\n        for name, mode, sha in self._iterblobs():")],
+      "conditional overwrite skips the UID check"),
+    M("reverse-map-layout", {"C06": ["U5"]}, G,
+      [("            if uid is not None and self._uid_to_fname.get(uid, (None, None))[0] == name:", "            if uid is not None and self._uid_to_fname.get(uid, (None, None))[1] == name:")],
+      "reader uses the wrong tuple component of the reverse map"),
+    M("etag-list-separator", {"C03": ["M1"]}, D,
+      [("    for etag in condition.split(\",\"):", "    for etag in condition.split(\", \"):")], "etag lists without a space after the comma are not recognised"),
+    M("found-not-reset", {"C10": ["X6"]}, IX,
+      [("        new_index_keys = set()\n        for keys in necessary_keys:\n            found = False\n", "        new_index_keys = set()\n        found = False\n        for keys in necessary_keys:\n")],
+      "per-group flag hoisted out of the loop"),
+    M("old-etag-carried", {"C07": ["T5"]}, G,
+      [("            try:\n                (old_content_type, old_etag) = previous[name]\n            except KeyError:\n                old_etag = None\n            else:\n                assert old_content_type == new_content_type\n",
+        "            if name in previous:\n                (old_content_type, old_etag) = previous[name]\n                assert old_content_type == new_content_type\n"),
+       ("        for name, new_content_type, new_etag in self.iter_with_etag(new_ctag):\n", "        old_etag = None\n        for name, new_content_type, new_etag in self.iter_with_etag(new_ctag):\n")],
+      "old etag leaks from the previous member"),
+    M("token-twice", {"C07": ["T1"]}, SY,
+      [("        new_token = resource.get_sync_token()\n        try:\n            try:\n                diff_iter = resource.iter_differences_since(old_token, new_token)",
+        "        try:\n            try:\n                diff_iter = resource.iter_differences_since(old_token, resource.get_sync_token())"),
+       ("        yield SyncToken(new_token)", "        yield SyncToken(resource.get_sync_token())")], "sync token evaluated twice"),
+    M("ctag-from-head", {"C08": ["G2"]}, G,
+      [("        index = self.repo.open_index()\n        return index.commit(self.repo.object_store).decode(\"ascii\")",
+        "        try:\n            return self.repo[self.ref].tree.decode(\"ascii\")\n        except KeyError:\n            index = self.repo.open_index()\n            return index.commit(self.repo.object_store).decode(\"ascii\")")],
+      "tree ctag read from the branch head while members come from the index"),
+    M("index-read-before-lock", {"C05": ["L0"]}, G,
+      [("        self._file = GitFile(self._path, \"wb\")\n        self._index = Index(self._path)\n", "        self._index = Index(self._path)\n        self._file = GitFile(self._path, \"wb\")\n")],
+      "index parsed before the lock file is taken"),
+    M("wsgi-path-join", {"C18": ["S6"]}, D,
+      [("        self.path = environ[\"SCRIPT_NAME\"] + path_from_environ(environ, \"PATH_INFO\")", "        self.path = posixpath.join(environ[\"SCRIPT_NAME\"], path_from_environ(environ, \"PATH_INFO\"))")],
+      "WSGI request path loses the route prefix"),
+    M("create-exist-ok", {"C18": ["S7"]}, G,
+      [("        os.mkdir(path)\n        return cls(dulwich.repo.Repo.init(path))", "        os.makedirs(path, exist_ok=True)\n        return cls(dulwich.repo.Repo.init(path))")],
+      "tree store creation re-initialises an existing directory"),
+    M("subcollections-early-return", {"C01": ["H1"]}, W,
+      [("    def subcollections(self):\n        for name in self.store.subdirectories():", "    def subcollections(self):\n        if self.store.get_type() in (STORE_TYPE_CALENDAR, STORE_TYPE_ADDRESSBOOK):\n            return\n        for name in self.store.subdirectories():")],
+      "nested collections missing from Depth:1 listings"),
+    M("cached-parser", {"C15": ["M5"]}, G,
+      [("                if cf is not None:\n                    cp.read_string(b\"\".join(cf).decode(\"utf-8\"))", "                if cf is not None:\n                    cp = _PARSERS.setdefault(b\"\".join(cf), cp)\n                    cp.read_string(b\"\".join(cf).decode(\"utf-8\"))"),
+       ("logger = logging.getLogger(__name__)\n", "logger = logging.getLogger(__name__)\n_PARSERS: dict = {}\n")],
+      "metadata parser objects shared through a cache"),
+    M("status-200-without-set", {"C15": ["M6"]}, D,
+      [("            if not handler.supported_on(resource):\n                statuscode = \"404 Not Found\"\n            else:\n                try:\n                    await handler.set_value(href, resource, newval)\n                except NotImplementedError:\n                    # TODO(jelmer): Signal\n                    # {DAV:}cannot-modify-protected-property error\n                    statuscode = \"409 Conflict\"\n                else:\n                    statuscode = \"200 OK\"",
+        "            statuscode = \"200 OK\"\n            if handler.supported_on(resource):\n                try:\n                    await handler.set_value(href, resource, newval)\n                except NotImplementedError:\n                    # TODO(jelmer): Signal\n                    # {DAV:}cannot-modify-protected-property error\n                    statuscode = \"409 Conflict\"")],
+      "unsupported property reported as set"),
+    M("multiget-key-normalised", {"C17": ["M4"]}, D,
+      [("            paths[path] = href\n", "            paths[posixpath.normpath(path)] = href\n")], "different spellings of one resource collapse in a multiget"),
+    M("calendar-data-filtered", {"C17": ["M3"], "C11": ["Q1"]}, CD,
+      [("        el.text = serialized_cal.decode(\"utf-8\")", "        el.text = \"\".join(c for c in serialized_cal.decode(\"utf-8\") if c.isprintable() or c in \"\\t\\r\\n\")")],
+      "calendar-data drops non-printable characters"),
+]
+
 ALLP = ["C%02d" % i for i in range(1, 19)]
 
 BENIGN: List[M] = [
@@ -287,6 +349,23 @@ BENIGN: List[M] = [
     M("b-unparse-git", {p: [] for p in ALLP}, G, [], "whole module re-emitted by ast.unparse", benign=True),
     M("b-unparse-web", {p: [] for p in ALLP}, W, [], "whole module re-emitted by ast.unparse", benign=True),
     M("b-unparse-icalendar", {p: [] for p in ("C06", "C10", "C11", "C14")}, IC, [], "whole module re-emitted by ast.unparse", benign=True),
+    M("b-unparse-vdir", {p: [] for p in ("C01", "C02", "C03", "C04", "C06", "C13", "C14", "C15")}, V, [], "whole module re-emitted by ast.unparse", benign=True),
+    M("b-unparse-caldav", {p: [] for p in ("C01", "C11", "C13", "C15", "C16", "C17", "C18")}, CD, [], "whole module re-emitted by ast.unparse", benign=True),
+    M("b-unparse-carddav", {p: [] for p in ("C12", "C15", "C16", "C17", "C18")}, CR, [], "whole module re-emitted by ast.unparse", benign=True),
+    M("b-unparse-collation", {p: [] for p in ("C11", "C12")}, CO, [], "whole module re-emitted by ast.unparse", benign=True),
+    M("b-unparse-sync", {p: [] for p in ("C02", "C07", "C08", "C16")}, SY, [], "whole module re-emitted by ast.unparse", benign=True),
+    M("b-unparse-davcommon", {p: [] for p in ("C02", "C17")}, DC, [], "whole module re-emitted by ast.unparse", benign=True),
+    M("b-unparse-store", {p: [] for p in ("C01", "C02", "C10", "C14")}, ST, [], "whole module re-emitted by ast.unparse", benign=True),
+    M("b-unparse-index", {p: [] for p in ("C10",)}, IX, [], "whole module re-emitted by ast.unparse", benign=True),
+    M("b-unparse-config", {p: [] for p in ("C01", "C15")}, CF, [], "whole module re-emitted by ast.unparse", benign=True),
+    M("b-get-member-dict", {p: [] for p in ("C01", "C13")}, W,
+      [("        for fname, content_type, fetag in self.store.iter_with_etag():\n            if name == fname:\n                return self._get_resource(name, content_type, fetag)\n",
+        "        for fname, content_type, fetag in self.store.iter_with_etag():\n            if fname != name:\n                continue\n            return self._get_resource(fname, content_type, fetag)\n")],
+      "lookup loop rewritten with continue", benign=True),
+    M("b-scan-rebuild", {p: [] for p in ("C05", "C06")}, V,
+      [("        for name in removed:\n            (unused_etag, uid) = self._fname_to_uid[name]\n            if uid is not None and self._uid_to_fname.get(uid, (None, None))[0] == name:\n                del self._uid_to_fname[uid]\n            del self._fname_to_uid[name]\n",
+        "        for name in removed:\n            (unused_etag, uid) = self._fname_to_uid.pop(name)\n            if uid is not None and self._uid_to_fname.get(uid, (None, None))[0] == name:\n                self._uid_to_fname.pop(uid)\n")],
+      "removal written with pop()", benign=True),
 ]
 
 
